@@ -158,6 +158,8 @@ func init() {
 			{Name: "window", Cases: func(t rig.Tier) int { return map[rig.Tier]int{rig.Quick: 800, rig.Thorough: 8000}[t] }, Run: c10Window, Procs: 4, Workers: 16, Quiet: 90 * time.Second},
 			{Name: "window-race", Race: true, Cases: func(t rig.Tier) int { return map[rig.Tier]int{rig.Quick: 128, rig.Thorough: 1280}[t] }, Run: c10Window, Procs: 4, Workers: 16, Quiet: 120 * time.Second},
 			{Name: "reconnect", Cases: func(t rig.Tier) int { return map[rig.Tier]int{rig.Quick: 192, rig.Thorough: 2400}[t] }, Run: c10Reconnect, Procs: 2, Workers: 32, Quiet: 90 * time.Second},
+			// a connection set up while the only other one is being removed must be served (C15 owns the mechanism: c15_leavejoin.go)
+			{Name: "leave-join", Cases: func(t rig.Tier) int { return map[rig.Tier]int{rig.Quick: 40, rig.Thorough: 800}[t] }, Run: c15LeaveJoin, Procs: 4, Quiet: 90 * time.Second},
 			{Name: "late-verdict", Cases: func(t rig.Tier) int { return map[rig.Tier]int{rig.Quick: 48, rig.Thorough: 600}[t] }, Run: func(c *rig.Ctx) { xLateVerdict(c, c.Rand, "late-verdict") }, Procs: 2, Quiet: 90 * time.Second},
 			{Name: "reconnect-race", Race: true, Cases: func(t rig.Tier) int { return map[rig.Tier]int{rig.Quick: 48, rig.Thorough: 480}[t] }, Run: c10Reconnect, Procs: 4, Workers: 16, Quiet: 120 * time.Second},
 			{Name: "co-pending", Cases: func(t rig.Tier) int { return map[rig.Tier]int{rig.Quick: 400, rig.Thorough: 6000}[t] }, Run: c10CoPending, Procs: 2, Workers: 16, Quiet: 90 * time.Second},
